@@ -425,8 +425,8 @@ struct Ad
                         out = c.find_range(v, pk(o.peek));
                     else if constexpr (T.has_iter_forms)
                     {
-                        if (o.k == OpK::FindIt)
-                            out = c.find(v.begin(), v.end(), v.size());
+                        if (o.k == OpK::FindIt) // fifo has no peek flag: it selects the 'distance' argument form
+                            out = o.peek ? c.find(v.begin(), v.end()) : c.find(v.begin(), v.end(), v.size());
                         else
                             out = c.find_range(v);
                     }
